@@ -133,8 +133,16 @@ def gen_own(seed, n):
             else:
                 sec += rnd.randrange(1, 3 * 86400)
             ns = sec * 10 ** 9 + rnd.randrange(10 ** 9)
-            op = rnd.choice(["xfer", "xfer", "accept", "accept", "accept", "revoke"])
-            if op == "xfer":
+            op = rnd.choice(["xfer", "xfer", "accept", "accept", "accept", "revoke", "other", "other"])
+            if op == "other":
+                # an unrelated call by the admin, kept: it must leave the nomination and its deadline alone
+                who = admin
+                if treasury:
+                    v = rnd.choice(["updcfg %s -" % hx(c.users[3]), "updcfg - {}"])
+                else:
+                    v = rnd.choice(["breaker", "resume 0 0 0", "resume 5 5 1", "updcfg - - - - %d" % (200 + k), "updcfg - - - [%s] -" % hx(c.users[2]),
+                                    "addval %s" % hx(b32.addr(c.vp, "own%d" % k))])
+            elif op == "xfer":
                 who = admin if rnd.random() < 0.75 else rnd.choice(ppl)
                 tgt = rnd.choice(ppl + ["not-an-address"])
                 v = "xfer_own %s" % hx(tgt)
@@ -229,7 +237,10 @@ def gen_treasury(seed, n):
                 lines.append("texec %d %s swapin %s %s:%d %d" % (t, hx(snd), route_s(r), hx(din), amt, lim))
                 lines.append("texec %d %s swapout %s %s:%d %d" % (t, hx(snd), route_s(r), hx(dout), amt, lim))
         recv = [b32.addr("osmo", "r1"), b32.addr("celestia", "r2"), b32.addr("osmo", "r3", 32), b32.addr("cosmos", "r4"),
-                b32.addr("osmo", "r1").upper(), b32.addr("osmo", "r1")[:-1] + "q", "garbage", b32.addr("celestia", "r2", 20, 0x2bc830a3)]
+                b32.addr("osmo", "r1").upper(), b32.addr("osmo", "r1")[:-1] + "q", "garbage", b32.addr("celestia", "r2", 20, 0x2bc830a3),
+                # checksum-valid addresses whose prefix extends or truncates the expected one
+                b32.addr("osmovaloper", "r5"), b32.addr("osmosis", "r6"), b32.addr("celestiavaloper", "r7"), b32.addr("celestiax", "r8"),
+                b32.addr("osm", "r9"), b32.addr("celesti", "r10"), b32.addr("o", "r11")]
         for rc in recv:
             for ch in ["-", hx("channel-2"), hx("")]:
                 for snd in [admin, trader, who]:
@@ -272,9 +283,15 @@ def gen_treasury(seed, n):
 # ---------------- C14: validation ----------------
 def corrupt_addr(rnd, a, hrp):
     """field-level corruption operators on a bech32 address"""
-    k = rnd.randrange(13)
+    k = rnd.randrange(16)
     if k == 12:
         return straddle(rnd, a)
+    if k == 13:
+        return b32.addr(hrp + rnd.choice(["x", "1", "pub", "s"]), a)   # checksum-valid, the prefix extended
+    if k == 14:
+        return b32.addr(hrp[:-1] or "x", a)                          # ... or truncated
+    if k == 15:
+        return b32.addr(hrp, a, 32)                                  # another length
     if k == 0:
         return a.upper()
     if k == 1:
@@ -343,7 +360,10 @@ def corrupt_ibc(rnd):
 def corrupt_denom(rnd):
     if rnd.random() < 0.12:
         return straddle(rnd, rnd.choice(["stTIA", "abcd", "milkTIA"]))
-    return rnd.choice(["abc", "ab", "", "abcd1", "ab-cd", "stTIA ", "ABCD", "abcdé", "a" * 200, "utia"])
+    return rnd.choice(SUB_DENOMS)
+
+
+SUB_DENOMS = ["abc", "ab", "", "abcd1", "ab-cd", "stTIA ", " stTIA", "\tstTIA", "stTIA\n", "st TIA", "ABCD", "abcdé", "a" * 200, "utia"]
 
 
 def gen_config(seed, n):
@@ -408,6 +428,14 @@ def gen_config(seed, n):
             return g
         for _ in range(3):
             lines.append(inst_s(straddled(f), t)); lines.append("query config")
+        # the sub-denom only enters at instantiation: sweep its corruption table across the histories
+        g = dict(f); g["sub"] = SUB_DENOMS[h % len(SUB_DENOMS)]
+        lines.append(inst_s(g, t)); lines.append("query config")
+        # surrounding whitespace on one validated string
+        g = dict(f); g["vals"] = list(f["vals"]); g["mons"] = list(f["mons"])
+        key = rnd.choice(["np", "vp", "nd", "pp", "pd", "ch", "sub", "staker", "coll"])
+        g[key] = rnd.choice([" ", "\t", "\n", ""]) + g[key] + rnd.choice([" ", "\n", ""])
+        lines.append(inst_s(g, t)); lines.append("query config")
         if h % 3 == 0:
             lines.append(inst_s(mutate(f), t)); lines.append("query config")
             # then a valid one so that updates have something to work on
@@ -498,6 +526,7 @@ def gen_migrate(seed, n):
             elif bad == 1: stk = rnd.choice([b32.addr("osmo", "s"), b32.addr("celestiavaloper", "s"), c.staker.upper()])
             elif bad == 2: col = rnd.choice([b32.addr("osmo", "c"), b32.addr("celestiavaloper", "c"), c.collector[:-1]])
             elif bad == 3: vals = "[" + ",".join(hx(v) for v in [c.validators[0], b32.addr("celestia", "notaval")]) + "]"
+            elif bad == 4: orc = hx(rnd.choice([b32.addr("cosmos", "o", 32), b32.addr("osmovaloper", "o", 32), "oracle"]))
             lines.append("leg0420 %s %s %s %s %s %d %d %d %s %s %d %s %s %s %s %s %s" % (
                 hx(D), hx("factory/%s/stTIA" % c.me), hx(tre), mons, vals, c.bp, c.unbonding, c.fee,
                 hx(stk), hx(col), c.min, hx(c.channel), stopped, orc, rnd.choice(["0", "1"]), pk, wt))
@@ -520,10 +549,15 @@ def gen_migrate(seed, n):
             return "v0420 %s %s %s %s" % tuple(hx(x) for x in a)
         paths["0420"] = v0420_args(True)
         for k in range(6):
+            args_ok = True
             if k:
-                paths["0420"] = v0420_args(rnd.random() < 0.4)
-            ver = rnd.choice(vers) if k else right
-            name = rnd.choice(names) if k else "staking"
+                args_ok = rnd.random() < 0.4
+                paths["0420"] = v0420_args(args_ok)
+            # an invalid argument is mostly tried with the right stored name and version, so that it is the argument check
+            # that decides
+            keep_right = (not k) or (layout == "0420" and not args_ok and rnd.random() < 0.7)
+            ver = right if keep_right else rnd.choice(vers)
+            name = "staking" if keep_right else rnd.choice(names)
             path = paths[layout] if (k == 0 or rnd.random() < 0.6) else paths[rnd.choice(["0418", "0420", "100"])]
             lines.append("setver %s %s" % (hx(name), hx(ver)))
             # refused migrations change nothing; successful ones are rolled back too so that every attempt starts from the same store
